@@ -92,7 +92,13 @@ class CommonSubexpressionEliminationPass(ir.passes.InPlacePass):
                     np_value = value.numpy()
 
                     value = (np_value.shape, str(np_value.dtype), np_value.tobytes())
-                attributes[k] = value
+                if v.type is ir.AttributeType.FLOAT:
+                    # 0.0 and -0.0 compare equal but are different values
+                    value = float(value).hex()
+                elif v.type is ir.AttributeType.FLOATS:
+                    value = tuple(float(x).hex() for x in value)
+                # Attributes of different types are different even when the values compare equal (1 and 1.0)
+                attributes[k] = (v.type, value)
 
             if control_flow_op:
                 # If the node is a control flow op, we skip it.
